@@ -137,12 +137,12 @@ EnumBad(st) ==
   LET O == Obs(st) IN
   UNION { LET rows == ToSet(st.cases[T])
               one == ToSet(st.case1[T])
-              ok(row) == row.ctor \in Ctors[T] /\ (row.args \o <<row.el>>) \in { CanonBy(O, row.ctor, u) : u \in O.tup[row.ctor] }
-                         /\ CanonBy(O, row.ctor, row.args \o <<row.el>>)[Len(row.args) + 1] = row.el
-          IN (IF \A e \in ORoots(O)[T] : \E row \in one : row.el = e /\ ok(row) THEN {} ELSE {"an element of enum " \o T \o " has no constructor case"})
+              \* the application of the case equals the element (which may be a handle that lost a merge)
+              ok(row) == row.ctor \in Ctors[T] /\ CanonBy(O, row.ctor, row.args \o <<row.el>>) \in { CanonBy(O, row.ctor, u) : u \in O.tup[row.ctor] }
+          IN (IF \A e \in OIds(O, T) : \E row \in one : row.el = e /\ ok(row) THEN {} ELSE {"an element of enum " \o T \o " has no constructor case"})
              \cup (IF \A row \in rows : ok(row) THEN {} ELSE {"a case of enum " \o T \o " is not a constructor tuple of the element"})
              \cup (IF \A c \in Ctors[T] : \A u \in OTup(O, c) : \E row \in rows :
-                        row.ctor = c /\ row.el = u[Len(u)] /\ CanonBy(O, c, row.args \o <<row.el>>) = u
+                        row.ctor = c /\ O.rep[T][row.el] = u[Len(u)] /\ CanonBy(O, c, row.args \o <<row.el>>) = u
                    THEN {} ELSE {"_cases misses a constructor tuple"})
         : T \in EnumTypes }
 
